@@ -145,6 +145,88 @@ theorem exactly_once_at_drop {n : Nat} (hn : 0 < n) {s : St} (h : Reachable n s)
     have : s.submitted.count j = 0 := List.count_eq_zero.mpr hj
     exact ⟨by rw [ps.count_eq]; exact this, by rw [pf.count_eq]; exact this⟩
 
+/-! ## `drop` returns: never stuck, and bounded -/
+
+/-- **`drop` is never stuck**: in every reachable state in which `drop` has begun and has
+    not returned, some thread can take a step (so a hang can only come from a job that does
+    not return, never from the pool's own protocol) -/
+theorem drop_never_stuck {n : Nat} (hn : 0 < n) {s : St} (h : Reachable n s) (hs : s.main ≠ .submitting)
+    (hd : s.main ≠ .done) : ∃ e s', Step n s e s' := by
+  have I := inv_reachable h
+  have hget : ∀ v, v < n → ∃ pc, s.ws[v]? = some pc := by
+    intro v hv; exact ⟨s.ws[v]'(by rw [I.drain.len]; exact hv), List.getElem?_eq_getElem _⟩
+  cases hm : s.main with
+  | submitting => exact absurd hm hs
+  | done => exact absurd hm hd
+  | terms k =>
+    have hk := I.drain.kle k hm
+    rcases Nat.lt_or_ge k n with h1 | h1
+    · exact ⟨_, _, .sendTerm s k hm h1⟩
+    · have hkn : k = n := by omega
+      subst hkn
+      have h0 : 0 < k := hn
+      obtain ⟨pc, hpc⟩ := hget 0 h0
+      by_cases he : pc = .exited
+      · subst he; exact ⟨_, _, .joined s 0 (.inr ⟨hm, rfl⟩) h0 hpc⟩
+      · exact worker_can_move I (by rw [hm]; rfl) hpc he
+  | joining w =>
+    have hw := joinLe_reachable h w hm
+    rcases Nat.lt_or_ge w n with h1 | h1
+    · obtain ⟨pc, hpc⟩ := hget w h1
+      by_cases he : pc = .exited
+      · subst he; exact ⟨_, _, .joined s w (.inl hm) h1 hpc⟩
+      · exact worker_can_move I (by rw [hm]; rfl) hpc he
+    · have : w = n := by omega
+      subst this; exact ⟨_, _, .dropEnd s hm⟩
+
+/-- **every step taken after `drop` has begun strictly lowers the potential** — hence `drop`
+    returns after at most `potential` further steps, under every scheduler -/
+theorem drop_step_decreases {n : Nat} {s s' : St} {e : Event} (hs : Step n s e s') (hm : s.main ≠ .submitting) :
+    potential n s' < potential n s := by
+  cases hs with
+  | submit j h => exact absurd h hm
+  | dropBegin h => exact absurd h hm
+  | sendTerm k h hk => simp [potential, h, mainRank]; omega
+  | joined w h hw he =>
+    rcases h with h | ⟨h, rfl⟩ <;> simp [potential, h, mainRank] <;> omega
+  | dropEnd h => simp [potential, h, mainRank]
+  | lock w hi hl =>
+    have := sum_rank_set s.ws w _ .locked hi
+    simp [potential, WPc.rank] at this ⊢; omega
+  | recvJob w j q hw hq =>
+    have := sum_rank_set s.ws w _ (.got (.job j)) hw
+    simp [potential, WPc.rank, hq] at this ⊢; omega
+  | recvTerm w q hw hq =>
+    have := sum_rank_set s.ws w _ (.got .term) hw
+    simp [potential, WPc.rank, hq] at this ⊢; omega
+  | unlock w m hw =>
+    have := sum_rank_set s.ws w _ (.ready m) hw
+    simp [potential, WPc.rank] at this ⊢; omega
+  | start w j hw =>
+    have := sum_rank_set s.ws w _ (.running j) hw
+    simp [potential, WPc.rank] at this ⊢; omega
+  | finish w j hw =>
+    have := sum_rank_set s.ws w _ .idle hw
+    simp [potential, WPc.rank] at this ⊢; omega
+  | exit w hw =>
+    have := sum_rank_set s.ws w _ .exited hw
+    simp [potential, WPc.rank] at this ⊢; omega
+
+/-- a run that starts after `dropBegin` has at most `potential` steps -/
+theorem drop_terminates {n : Nat} {tr : List Event} {s s' : St} (h : run n s tr = some s')
+    (hm : s.main ≠ .submitting) : tr.length + potential n s' ≤ potential n s := by
+  induction tr generalizing s with
+  | nil => simp [run] at h; subst h; simp
+  | cons e es ih =>
+    simp only [run] at h
+    split at h
+    · rename_i s1 h1
+      have hs := stepFn_sound h1
+      have := ih h (main_stays_dropping hs hm)
+      have := drop_step_decreases hs hm
+      simp only [List.length_cons]; omega
+    · cases h
+
 /-! ## nothing in the protocol serialises jobs -/
 
 /-- **progress**: in *any* state — whatever the other workers are doing, in particular
